@@ -664,13 +664,24 @@ pub fn run(cfg: &Cfg) -> i32 {
         for limit in 0..=9usize {
             for code in 0..ns.pow(4) {
                 let seq: Vec<usize> = (0..4).map(|i| (code / ns.pow(i)) % ns).collect();
-                for drive in 0..3 {
+                for drive in 0..4 {
                     let mut xs = base.clone();
+                    if drive == 3 {
+                        xs.set_recording_enabled(true);
+                    }
                     xs.set_insn_limit(Some(limit)).unwrap();
                     let mut out = String::new();
                     for si in &seq {
                         let _ = guarded(|| if drive == 0 { xs.eval(srcs[*si]) } else { xs.compile(srcs[*si]).and_then(|_| xs.run()) });
                         out.push_str(&xs.read_stdout().unwrap_or_default());
+                        if drive == 3 {
+                            // stepping back and running again re-executes instructions: they count too
+                            for _ in 0..3 {
+                                let _ = guarded(|| xs.rnext());
+                            }
+                            let _ = guarded(|| xs.run());
+                            out.push_str(&xs.read_stdout().unwrap_or_default());
+                        }
                         if drive == 2 {
                             // a host adjusting the OTHER limits between sources does not refill the instruction budget
                             let _ = xs.set_stack_limit(Some(1000));
@@ -686,7 +697,7 @@ pub fn run(cfg: &Cfg) -> i32 {
                                 ("kind", js("limit-sequence")),
                                 ("insn_limit_set_once", ji(limit)),
                                 ("sources", J::A(d.iter().map(|s| js(s.clone())).collect())),
-                                ("drive", js(["eval", "compile+run", "compile+run, then set_stack_limit(Some(1000)) and set_heap_limit(None) after every source"][drive])),
+                                ("drive", js(["eval", "compile+run", "compile+run, then set_stack_limit(Some(1000)) and set_heap_limit(None) after every source", "recording on: compile+run, then rnext() x 3 and run() after every source"][drive])),
                                 ("markers_printed", ji(printed)),
                                 ("what", js("every printed marker costs at least one instruction, so more markers than the limit were printed")),
                             ])
